@@ -14,7 +14,7 @@ CLAIM = dict(cat="other", design="§3 C12",
         "constructor;destructor of EVERY class in /repo/src with raw-pointer members plus the bodies of do_simulation and main; an abstract interpreter over {uninit,null,live,freed} is proved sound in Coq w.r.t. a "
         "nondeterministic semantics (every outcome of uninterpreted conditions = every combination of optional components, every loop count): accepted programs never test, read or delete an uninitialised or freed "
         "pointer. All regenerated programs are accepted (theorem re-checked against the current code). The rest of the property is OBSERVED: complete runs of the real binary (RHD hydro, RHD with radiation + live output, "
-        "restart, task-based ionization with diffuse field and continuous source, 1-4 threads) under valgrind memcheck (quick) and an ASan+UBSan build (thorough) must exit 0 with an empty report.",
+        "restart, task-based ionization with diffuse field and continuous source, 1-4 threads) under valgrind memcheck (quick) and an ASan+UBSan build (thorough) must exit 0 with an empty report. Complete-run scenarios (valgrind; thorough: ASan/UBSan too): hydro, restart, RHD with live output (cubic and non-cubic subgrids), ionization with diffuse field and continuous source, a star / an external field without luminosity, a task space re-used several times per iteration, trackers (three in one cell) on a subgrid with copies, sources that appear and disappear.",
    note="Level 'other': the theorem covers the pointer life cycle only (intraprocedural; ownership transfer, array elements and container internals not modelled); out-of-bounds, use-after-free inside containers and "
         "uninitialised scalars are only observed by valgrind/sanitizers on the sampled configurations. Trusted: clang 14 AST, the translator tools/lifecycle_extract.py (unknown constructs over-approximate to reads), valgrind. "
         "Three genuine defects of the pinned commit were found by the theorem failing, replayed under valgrind and fixed (LiveOutputManager, UniformRandomPhotonSourceDistribution and CaproniPhotonSourceDistribution restart constructors).",
